@@ -15,6 +15,7 @@ import (
 	"math/rand"
 	"sort"
 	"strings"
+	"syscall"
 	"testing/fstest"
 	"time"
 
@@ -122,19 +123,45 @@ func runExtract(ex filesystem.Extractor, path string, data []byte, sorted bool) 
 			sortPkgs(o.Pkgs)
 		}
 	}()
-	select {
-	case r := <-done:
-		return r.obs
-	case <-time.After(extractDeadline):
-		obs.Kind = "timeout"
-		obs.ErrText = fmt.Sprintf("Extract did not return within %s", extractDeadline)
-		timedOut = true
-		return obs
+	// A deadline hit is only a candidate (the machine may be loaded): this process runs nothing but this call, so the call
+	// is a hang only if the process burned more CPU than cpuHangLimit since the call started (a spinning extractor
+	// burns CPU, a starved one does not) or the call is still not back after 10 x the deadline.
+	cpu0 := selfCPU()
+	t0 := time.Now()
+	tick := time.NewTicker(50 * time.Millisecond)
+	defer tick.Stop()
+	for {
+		select {
+		case r := <-done:
+			if time.Since(t0) > extractDeadline {
+				loadInducedTimeouts++
+			}
+			return r.obs
+		case <-tick.C:
+			wall, cpu := time.Since(t0), selfCPU()-cpu0
+			if wall > extractDeadline && (cpu > cpuHangLimit || wall > 10*extractDeadline) {
+				obs.Kind = "timeout"
+				obs.ErrText = fmt.Sprintf("Extract did not return within %s (waited %s wall, %s CPU of this process)", extractDeadline, wall.Round(time.Millisecond), cpu.Round(time.Millisecond))
+				timedOut = true
+				return obs
+			}
+		}
 	}
 }
 
 var extractDeadline = 2 * time.Second
+var cpuHangLimit = extractDeadline * 12 / 10
 var timedOut bool
+var loadInducedTimeouts int
+
+// selfCPU is the user + system CPU time consumed by this process so far.
+func selfCPU() time.Duration {
+	var ru syscall.Rusage
+	if syscall.Getrusage(syscall.RUSAGE_SELF, &ru) != nil {
+		return 0
+	}
+	return time.Duration(ru.Utime.Nano() + ru.Stime.Nano())
+}
 
 func sortPkgs(ps []Pkg) {
 	sort.SliceStable(ps, func(i, j int) bool {
